@@ -18,7 +18,10 @@
 namespace EinoV.C08
 
 /-- `streamItem[T]{chunk, err}`; `err = 0` is a nil error, any other number identifies an
-    error value (never `io.EOF`). -/
+    error value.  That value is never the sentinel `io.EOF` itself, but it may *wrap* it
+    (`fmt.Errorf("…: %w", io.EOF)`) or claim it through an `Is` method: such an item is an
+    ordinary error ELEMENT of the stream like any other (the harness sends all three kinds;
+    which number carries which kind is the harness's business, the model does not look). -/
 structure Item where
   chunk : Nat
   err : Nat
@@ -37,6 +40,35 @@ def Res.item? : Res → Option Item
 def Res.isEof : Res → Bool
   | .eof => true
   | .item _ => false
+
+/-! ## the end-of-stream test -/
+
+/-- How the receive paths of copies (`parentStreamReader.peek`) and of the forwarding
+    goroutines (`toStream`) decide that what their source returned is the end of the stream.
+    `ident = true`: `err == io.EOF`, only the sentinel itself (`Res.eof`).  `ident = false`:
+    `errors.Is(err, io.EOF)`, which also holds for an error *element* whose error value wraps
+    or claims io.EOF (`wraps e`).  The component models below (`CopyCore.fill`, `recvAll` of the
+    network model) tell the two apart by the constructor of `Res`: they are models of the
+    identity test (source fact `eofByIdentity`, theorem `eof_test_is_identity`). -/
+def endTest (ident : Bool) (wraps : Nat → Bool) : Res → Bool
+  | .eof => true
+  | .item i => !ident && i.err != 0 && wraps i.err
+
+/-- the loop of a forwarding goroutine (`toStream`, stream.go:521-531) over a source that
+    delivers `l` and then io.EOF, its stream being read to the end: what gets into the stream. -/
+def fwdLoop (ident : Bool) (wraps : Nat → Bool) : List Item → List Item
+  | [] => []
+  | x :: rest => if endTest ident wraps (.item x) then [] else x :: fwdLoop ident wraps rest
+
+/-- `n` successive `Recv`s of one copy (`peek`, stream.go:590-619) over a source that delivers
+    `l` and then io.EOF: an element that the test takes for the end gets no `next` element and
+    the cursor stays on it, so it is returned again and again. -/
+def peekLoop (ident : Bool) (wraps : Nat → Bool) : Nat → List Item → List Res
+  | 0, _ => []
+  | n + 1, [] => List.replicate (n + 1) .eof
+  | n + 1, x :: rest =>
+    if endTest ident wraps (.item x) then List.replicate (n + 1) (.item x)
+    else .item x :: peekLoop ident wraps n rest
 
 /-! ## Pipe -/
 
